@@ -1,9 +1,172 @@
+import Mathlib.Logic.ExistsUnique
 import Tup.Model.IdSpace
 import Tup.Spec.Layout
-/-! C10 — property theorems (placeholder while the proofs are being written). -/
+import Tup.Lemmas.IdSpace
+import Tup.Lemmas.IdSpaceSplit
+import Tup.Lemmas.IdSpaceEnum
+import Tup.Lemmas.IdSpaceRand
+/-!
+  C10 — ID spaces partition the 32-bit IDs; enumeration, size, membership, filters agree.
+
+  Model: `Tup.Model.IdSpace` (`tupimage/id_manager.py`, classes `IDSubspace`, `IDSpace`).
+  Specification: `Tup.Spec.Layout` (`inSpace`, `subByte`, `member`: byte projections + feature table).
+  Every theorem holds for every natural number `id`, every one of the five spaces
+  (`s ∈ Space.all`, equivalently `s.valid`), every valid subspace (`u.valid`): no bounds.
+  The proofs are in `Tup/Lemmas/IdSpace*.lean` (namespace `Tup.IdLemmas`, core Lean only).
+-/
 namespace Tup.C10
-open Tup
+open Tup Tup.IdLemmas
+
+/-! ### the spaces -/
 
 theorem all_spaces_valid : ∀ s ∈ Space.all, s.valid = true := by decide
+
+/-- `IDSpace.all_values()` lists exactly the spaces the constructor accepts. -/
+theorem valid_iff_mem_all (s : Space) : s.valid = true ↔ s ∈ Space.all :=
+  IdLemmas.valid_iff_mem_all s
+
+/-- 1. Partition: every non-zero 32-bit id lies in exactly one of the five spaces. -/
+theorem exists_unique_space (id : Nat) (h0 : 0 < id) (h1 : id < 2 ^ 32) :
+    ∃! s, s ∈ Space.all ∧ Spec.inSpace s id = true :=
+  IdLemmas.exists_unique_space id h0 h1
+
+/-- no id outside `1 .. 2^32-1` is in any space -/
+theorem inSpace_range (s : Space) (id : Nat) (h : Spec.inSpace s id = true) :
+    0 < id ∧ id < 2 ^ 32 ∧ s ∈ Space.all := by
+  refine ⟨?_, ?_, inSpace_valid h⟩ <;> (simp [Spec.inSpace] at h; omega)
+
+/-- 2. `from_id` returns `s` exactly when `s` is a valid space whose features `id` uses. -/
+theorem fromId_spec (id : Nat) (s : Space) :
+    fromId id = some s ↔ (s.valid = true ∧ Spec.inSpace s id = true) :=
+  IdLemmas.fromId_spec id s
+
+/-- 2'. `from_id` raises exactly on `0` and on ids of more than 32 bits. -/
+theorem fromId_none_iff (id : Nat) : fromId id = none ↔ (id = 0 ∨ id ≥ 2 ^ 32) :=
+  IdLemmas.fromId_none_iff id
+
+/-- `contains` is the specification's `inSpace`. -/
+theorem contains_iff_inSpace (s : Space) (hs : s ∈ Space.all) (id : Nat) (h0 : 0 < id)
+    (h1 : id < 2 ^ 32) : s.contains id = some (Spec.inSpace s id) := by
+  obtain ⟨t, ht⟩ := fromId_isSome h0 (by simpa using h1)
+  simp only [Space.contains, ht, Option.map_some, Option.some.injEq]
+  rw [Bool.eq_iff_iff, ← fromId_iff_inSpace hs id, ht]; simp
+
+/-- 3. `contains_and_in_subspace` decides membership as specified. -/
+theorem containsInSub_iff_member (s : Space) (hs : s ∈ Space.all) (u : Sub) (id : Nat)
+    (h0 : 0 < id) (h1 : id < 2 ^ 32) : s.containsInSub id u = some (Spec.member s u id) :=
+  IdLemmas.containsInSub_iff_member hs u id h0 h1
+
+/-- 4. `get_subspace_byte` is the specification's subspace byte of the id's own space
+    (and raises exactly when `from_id` does). -/
+theorem subspaceByte_spec (id : Nat) :
+    subspaceByte id = (fromId id).map (fun s => Spec.subByte s id) :=
+  IdLemmas.subspaceByte_spec id
+
+/-- 10. On rows of the space's own table the SQL range filter selects exactly the subspace. -/
+theorem sqlFilter_iff_member (s : Space) (u : Sub) (hu : u.valid = true) (id : Nat)
+    (hi : Spec.inSpace s id = true) : s.sqlFilter u id = true ↔ Spec.member s u id = true :=
+  IdLemmas.sqlFilter_iff_member hu hi
+
+/-- 11. Subspaces with disjoint byte ranges are disjoint (in any space). -/
+theorem disjoint_of_disjoint_ranges (s : Space) (u1 u2 : Sub) (id : Nat)
+    (h : u1.e ≤ u2.b ∨ u2.e ≤ u1.b) :
+    ¬ (Spec.member s u1 id = true ∧ Spec.member s u2 id = true) :=
+  IdLemmas.disjoint_of_disjoint_ranges s u1 u2 id h
+
+/-- 11'. Different spaces are disjoint, whatever the subspaces. -/
+theorem disjoint_spaces (s t : Space) (hs : s ∈ Space.all) (ht : t ∈ Space.all) (hne : s ≠ t)
+    (u1 u2 : Sub) (id : Nat) : ¬ (Spec.member s u1 id = true ∧ Spec.member t u2 id = true) := by
+  rw [member_iff, member_iff]
+  rintro ⟨⟨h1, _⟩, ⟨h2, _⟩⟩
+  exact IdLemmas.disjoint_spaces hs ht hne id ⟨h1, h2⟩
+
+/-- 13. The `IDSubspace` constructor raises exactly outside `begin < end ≤ 256`, `end ≠ 1`. -/
+theorem mkSub_spec (b e : Nat) : mkSub b e = none ↔ ¬ (b < e ∧ e ≤ 256 ∧ e ≠ 1) :=
+  IdLemmas.mkSub_spec b e
+
+/-- 12. `split(k)` for `1 ≤ k ≤ #non-zero byte values` (and for `k = 1` always): `k` parts, the
+    first begins at `begin`, the last ends at `end`, consecutive parts abut, every part is a valid
+    subspace with at least one non-zero byte value. -/
+theorem split_spec (u : Sub) (hu : u.valid = true) (k : Nat)
+    (hk : k = 1 ∨ (1 ≤ k ∧ k ≤ u.numNonzeroByteValues)) :
+    ∃ parts, u.split k = some parts ∧ parts.length = k ∧
+      parts.head?.map (·.b) = some u.b ∧
+      parts.getLast?.map (·.e) = some u.e ∧
+      (∀ i (h : i + 1 < parts.length), parts[i].e = parts[i + 1].b) ∧
+      (∀ p ∈ parts, p.valid = true ∧ 1 ≤ p.numNonzeroByteValues) := by
+  obtain ⟨parts, hp, ok⟩ := IdLemmas.split_spec u hu k hk
+  exact ⟨parts, hp, ok.length, ok.first, ok.last, ok.abut, ok.parts_ok⟩
+
+/-- 12'. The parts are ordered and pairwise non-overlapping as byte ranges. -/
+theorem split_pairwise (u : Sub) (hu : u.valid = true) (k : Nat) (parts : List Sub)
+    (h : u.split k = some parts) : parts.Pairwise (fun p q => p.e ≤ q.b) := by
+  have hk : k = 1 ∨ (1 ≤ k ∧ k ≤ u.numNonzeroByteValues) := by
+    have hne : u.split k ≠ none := by simp [h]
+    rw [Ne, split_none_iff u hu] at hne; omega
+  obtain ⟨parts', hp, ok⟩ := IdLemmas.split_spec u hu k hk
+  rw [h] at hp; cases hp
+  exact splitOk_pairwise ok
+
+/-- 12''. `split` raises exactly when `k = 0`, or `k ≥ 2` exceeds the number of non-zero byte
+    values (the `←` direction needs no validity: see `split_rejects`). -/
+theorem split_none_iff (u : Sub) (hu : u.valid = true) (k : Nat) :
+    u.split k = none ↔ (k = 0 ∨ (2 ≤ k ∧ u.numNonzeroByteValues < k)) :=
+  IdLemmas.split_none_iff u hu k
+
+theorem split_rejects (u : Sub) (k : Nat) (h : k = 0 ∨ (2 ≤ k ∧ u.numNonzeroByteValues < k)) :
+    u.split k = none :=
+  IdLemmas.split_rejects u k h
+
+/-- 12'''. Every valid subspace (in particular every part of a split) is non-empty in every space. -/
+theorem subspaceSize_pos (s : Space) (hs : s ∈ Space.all) (u : Sub) (hu : u.valid = true) :
+    1 ≤ s.subspaceSize u :=
+  IdLemmas.subspaceSize_pos hs hu
+
+/-- 5. `all_ids` enumerates exactly the members. -/
+theorem mem_allIds_iff_member (s : Space) (hs : s ∈ Space.all) (u : Sub) (hu : u.valid = true)
+    (id : Nat) : id ∈ s.allIds u ↔ Spec.member s u id = true :=
+  IdLemmas.mem_allIds_iff_member hs hu id
+
+/-- 6. `all_ids` yields no id twice. -/
+theorem allIds_nodup (s : Space) (u : Sub) (hu : u.valid = true) : (s.allIds u).Nodup :=
+  IdLemmas.allIds_nodup s ((Sub.valid_iff u).1 hu).2.1
+
+/-- 7. `subspace_size` is the number of ids `all_ids` yields (hence, with 5 and 6, the number of
+    members). -/
+theorem allIds_length (s : Space) (hs : s ∈ Space.all) (u : Sub) (hu : u.valid = true) :
+    (s.allIds u).length = s.subspaceSize u :=
+  IdLemmas.allIds_length hs hu
+
+/-- 8. Whatever `secrets.randbelow` returns within the requested bounds (the bounds check is inside
+    `genRandomId`, which is `none` otherwise), `gen_random_id` returns a member. -/
+theorem genRandomId_member (s : Space) (hs : s ∈ Space.all) (u : Sub) (hu : u.valid = true)
+    (draws : List Nat) (id : Nat) (h : s.genRandomId u draws = some id) :
+    Spec.member s u id = true :=
+  IdLemmas.genRandomId_member hs hu h
+
+/-- 9. Every member can be returned by `gen_random_id`. -/
+theorem genRandomId_surj (s : Space) (hs : s ∈ Space.all) (u : Sub) (hu : u.valid = true)
+    (id : Nat) (h : Spec.member s u id = true) : ∃ draws, s.genRandomId u draws = some id :=
+  IdLemmas.genRandomId_surj hs hu h
+
+/-! ### non-vacuity: the hypotheses above are satisfiable (and the functions compute) -/
+
+example : (⟨24, true⟩ : Space) ∈ Space.all ∧ (Sub.mk 0 256).valid = true ∧
+    (0 : Nat) < 0x12345678 ∧ 0x12345678 < 2 ^ 32 ∧
+    Spec.inSpace ⟨24, true⟩ 0x12345678 = true ∧ Spec.member ⟨24, true⟩ ⟨0, 256⟩ 0x12345678 = true ∧
+    fromId 0x12345678 = some ⟨24, true⟩ := by decide
+example : Spec.member ⟨8, false⟩ ⟨5, 7⟩ 6 = true ∧ Spec.member ⟨24, false⟩ ⟨0, 2⟩ 0x100 = true ∧
+    Spec.member ⟨0, true⟩ ⟨0, 2⟩ 0x1000000 = true ∧ Spec.member ⟨8, true⟩ ⟨255, 256⟩ 0xFF000001 = true := by
+  decide
+example : (Space.mk 8 false).allIds ⟨5, 7⟩ = [5, 6] ∧ (Space.mk 8 false).subspaceSize ⟨5, 7⟩ = 2 := by
+  decide
+example : (Space.mk 24 true).genRandomId ⟨0, 256⟩ [0x11, 0x78, 0x34, 0x56] = some 0x12345678 := by
+  decide
+example : (Sub.mk 0 256).split 3 = some [⟨0, 86⟩, ⟨86, 171⟩, ⟨171, 256⟩] ∧
+    (Sub.mk 0 256).numNonzeroByteValues = 255 ∧ (Sub.mk 5 7).split 3 = none := by decide
+example : (Space.mk 24 false).sqlFilter ⟨1, 3⟩ 0x020000 = true ∧
+    Spec.inSpace ⟨24, false⟩ 0x020000 = true := by decide
+example : mkSub 0 1 = none ∧ mkSub 0 2 = some ⟨0, 2⟩ ∧ mkSub 3 3 = none ∧ mkSub 0 257 = none := by
+  decide
 
 end Tup.C10
